@@ -77,7 +77,7 @@ def engines():
     e["e2t"] = {
         "tus": [{"src": "e2/tpol.cpp", "name": "e2t_pol_" + p_,
                  "flags": TSAN + ["-DPOL_" + p_], "deps": e2_deps}
-                for p_ in ["dbg", "rel_ind", "rel_map"]] +
+                for p_ in ["dbg", "rel_ind", "rel_map", "rel", "dbg_ind"]] +
                [{"src": "e2/tmain.cpp", "name": "e2t_main", "flags": TSAN,
                  "deps": e2_deps}],
         "link": TSAN + ["-lrapidcheck"],
